@@ -516,6 +516,8 @@ PASS_NATIVE = {
     builtins.object, collections.deque, builtins.slice, builtins.super,
     object.__setattr__, object.__init__, object.__new__, type.__call__, type.__setattr__,
     __import__('itertools').chain,
+    # type predicates of the inspect module only look at the python type of their argument: a proxy is none of these
+    __import__('inspect').isgenerator, __import__('inspect').isgeneratorfunction, __import__('inspect').iscoroutine,
 }
 
 _LIST_PASS = {'append', 'insert', 'extend', 'pop', '__setitem__', '__getitem__', 'appendleft',
